@@ -285,10 +285,19 @@ def _from_dict_facts(fn):
             ifs[0].test = hole("__SUPERSET_TEST__")
             ret = ifs[0].body[0].value
             if not (isinstance(ret, ast.Call) and unparse(ret.func) == "from_dict" and [unparse(a) for a in ret.args] == ["child_class", "d"]
-                    and [k.arg for k in ret.keywords] == ["drop_extra_fields"]):
+                    and [k.arg for k in ret.keywords] in (["drop_extra_fields"], [])):
                 raise Unrecognised(f"from_dict: what the candidate loop returns: {unparse(ret)[:120]}")
-            facts["child_drop"] = const(ret.keywords[0].value, bool)
-            ret.keywords[0].value = hole("__CHILD_DROP__")
+            if ret.keywords:
+                v = ret.keywords[0].value
+                if isinstance(v, ast.Constant) and v.value is None:
+                    facts["child_drop"] = "None"
+                else:
+                    facts["child_drop"] = f"(Some {cbool(const(v, bool))})"
+                ret.keywords[0].value = hole("__CHILD_DROP__")
+            else:
+                # the argument is not passed: from_dict re-derives it from the chosen class
+                facts["child_drop"] = "None"
+                ret.keywords = [ast.keyword(arg="drop_extra_fields", value=hole("__CHILD_DROP__"))]
     for k in ("rule", "absent", "skey", "pick", "cmp", "child_drop", "cset", "rset"):
         if k not in facts:
             raise Unrecognised(f"from_dict: could not locate the construct for `{k}`")
@@ -338,7 +347,7 @@ def emit(repo: str) -> str:
         f"Definition PICK_GEN : pick := {facts['pick']}.\n"
         f"Definition DROP_RULE_GEN : droprule := {facts['rule']}.\n"
         f"Definition DIS_ABSENT_GEN : bool := {cbool(facts['absent'])}.\n"
-        f"Definition CHILD_DROP_GEN : bool := {cbool(facts['child_drop'])}.\n"
+        f"Definition CHILD_DROP_GEN : option bool := {facts['child_drop']}.\n"
         "(* the model instantiated with the regenerated facts *)\n"
         f"Definition from_ser_gen := from_ser {args}.\n"
         "Definition to_ser_gen := to_ser DC_TYPE_KEY.\n"
